@@ -663,6 +663,41 @@ func c09(c *core.Ctx) {
 			})
 			c.Check(bad == token.NoPos, core.FuncName(hc.Fn)+":deadline-applied-before-the-body-is-awaited", hc.Fn.Pos(), "no read of the request body precedes the decoding of the timeout header", "the request body is read before the timeout header is turned into the handler's deadline: the timeout then runs from the end of the upload, so the handler's deadline is later than the caller's by however long the body took to arrive")
 		}
+		// the context handed back carries the deadline: on every path that passed the deadline step the returned
+		// context derives from that step's result (not from its parent again)
+		for _, f := range fam {
+			for _, wt := range core.CallsIn(f, func(call *ssa.Call, ci core.CallInfo) bool {
+				return ci.Is("context.WithTimeout") || ci.Is("context.WithDeadline")
+			}) {
+				var onPaths func(v ssa.Value, depth int) bool
+				onPaths = func(v ssa.Value, depth int) bool {
+					if phi, isPhi := v.(*ssa.Phi); isPhi && depth < 6 {
+						for i, e := range phi.Edges {
+							pred := phi.Block().Preds[i]
+							if pred != wt.Block() && !core.Reachable(core.After(wt), pred.Instrs[len(pred.Instrs)-1]) {
+								continue // this edge is taken only on paths that did not pass the deadline step
+							}
+							if !onPaths(e, depth+1) {
+								return false
+							}
+						}
+						return true
+					}
+					return ctxDerivesFromCall(v, wt)
+				}
+				for _, r := range core.Returns(f) {
+					if !core.Reachable(core.After(wt), r) {
+						continue
+					}
+					for _, res := range r.Results {
+						if core.TypeStr(res.Type()) != "context.Context" || core.IsNilConst(res) {
+							continue
+						}
+						c.Check(onPaths(res, 0), core.FuncName(f)+":deadline-context-is-returned", r.Pos(), "on the paths through the deadline step the context returned derives from its result", "after the deadline was applied a context is returned that does not derive from the deadline step's result (derived from the parent again, say): the handler runs without the caller's deadline")
+					}
+				}
+			}
+		}
 		if parser == nil {
 			c.Missing("timeout parser")
 		} else {
